@@ -21,6 +21,9 @@
 (*   seps      every trivia sequence of AllSeps between two units          *)
 (*   edges     every trivia sequence before and after a single unit (also  *)
 (*             a single-line comment that ends the input)                  *)
+(*   nest      every sequence of up to MaxLen units over templates pieces,  *)
+(*             braces, parentheses and an identifier, without separators   *)
+(*             (the bracket context decides what '}' is)                   *)
 (*   regexp    prefix, regular-expression literal with every body of up to *)
 (*             MaxBody atoms, follower                                     *)
 (*   seq       (-simulate) random sequences of MaxLen units, nesting to    *)
@@ -65,6 +68,8 @@ Red4 == Red3 \cup {U(n) : n \in {"id.esc4", "num.traildot", "num.hex", "str.sq",
                                   "p.<", "p.!", "p.>>", "p./=", "p.**", "p.??", "p.&&", "kw.await"}} \cup {<<"re.open", "re.class.slash", "re.close", "re.flags">>}
 Pre  == {U(n) : n \in {"id.ascii", "p.(", "p.=", "kw.return", "p.}", "p./", "num.int"}}
 Post == {U(n) : n \in {"p.;", "p..", "p./", "id.ascii", "num.int", "p.(", "p./="}}
+NestNames == {"tmpl.head", "tmpl.mid", "tmpl.tail", "p.{", "p.}", "p.(", "p.)", "id.ascii", "tmpl.nosub"}
+NestSet == {U(n) : n \in NestNames}
 ASSUME RedNames \subseteq AtomNames /\ Red3Names \subseteq AtomNames
 
 \* ---- separator choices (sequences of trivia units)
@@ -88,6 +93,7 @@ PlanRec ==
       [] Plan = "seps"       -> R(<<Red3, Red3>>, AllSeps, None, {}, FALSE, FALSE)
       [] Plan = "edges"      -> R(<<Red2>>, None, AllSeps, Trail, FALSE, FALSE)
       [] Plan = "regexp"     -> R(<<Pre, ReUnits(MaxBody), Post>>, Two, None, {}, FALSE, FALSE)
+      [] Plan = "nest"       -> R([i \in 1..MaxLen |-> NestSet], None, None, {}, FALSE, FALSE)
       [] Plan = "triples_t"  -> R(<<Red4, Red4, Red4>>, Three, None, {}, FALSE, FALSE)
       [] Plan = "ctxpairs_t" -> R(<<Full, Full>>, Six, Two, {}, TRUE, FALSE)
       [] Plan = "seps_t"     -> R(<<Red, Red>>, AllSeps, None, {}, FALSE, FALSE)
@@ -99,17 +105,21 @@ ASSUME P.strict => NSig = 2
 ASSUME \A a \in SigAtoms, b \in Atoms : b.h # <<>> /\ MergesStrict(a, b) => NeedsSep(a, b)
 
 \* ---- adjacency
-Flat(us) == IF us = <<>> THEN <<>> ELSE <<Last(us[Len(us)])>>     \* the last atom of a sequence of units, as a 0/1 sequence
-Sep(a, b, direct) == IF direct /\ P.strict THEN MergesStrict(a, b) ELSE NeedsSep(a, b)
-\* prev (0/1 sequence of atoms), then the trivia units s, then atom b: no neighbours that need a separator
+\* the two relations tabulated once over atom names (b must be able to start a unit)
+Starts == {n \in AtomNames : A[n].h # <<>>}
+NSepT == [a \in AtomNames, b \in Starts |-> NeedsSep(A[a], A[b])]
+MStrT == [a \in AtomNames, b \in Starts |-> MergesStrict(A[a], A[b])]
+Flat(us) == IF us = <<>> THEN <<>> ELSE <<Last(us[Len(us)]).n>>   \* name of the last atom of a sequence of units, as a 0/1 sequence
+Sep(a, b, direct) == IF direct /\ P.strict THEN MStrT[a, b] ELSE NSepT[a, b]
+\* prev (0/1 sequence of atom names), then the trivia units s, then b (0/1 sequence): no neighbours that need a separator
 ChainOK(prev, s, b) ==
-    LET seq == prev \o [i \in 1..Len(s) |-> First(s[i])] \o b      \* b: 0/1 sequence
+    LET seq == prev \o [i \in 1..Len(s) |-> s[i][1]] \o b
     IN \A i \in 1..(Len(seq) - 1) : ~Sep(seq[i], seq[i + 1], s = <<>>)
 
 Init == /\ nsig = 0
         /\ IF P.subst THEN units = <<U("tmpl.head")>> /\ stk = <<"T">> ELSE units = <<>> /\ stk = <<>>
 
-Add(s, u) == /\ ChainOK(Flat(units), s, <<First(u)>>)
+Add(s, u) == /\ ChainOK(Flat(units), s, <<u[1]>>)
              /\ Allowed(u, stk, MaxNest)
              /\ units' = units \o s \o <<u>>
              /\ stk' = Effect(u, stk)
@@ -135,7 +145,7 @@ Sim == /\ Plan = "seq" /\ nsig < MaxLen
        /\ LET avail == {ci \in DOMAIN Classes : \E u \in Classes[ci] : Allowed(u, stk, MaxNest)} IN
           \E ci \in RandomSubset(1, avail) :
           \E u \in RandomSubset(1, {x \in Classes[ci] : Allowed(x, stk, MaxNest)}) :
-             LET ok == {s \in SimSeps : ChainOK(Flat(units), s, <<First(u)>>)} IN
+             LET ok == {s \in SimSeps : ChainOK(Flat(units), s, <<u[1]>>)} IN
              \E coin \in RandomSubset(1, 1..5) :                   \* no separator in 2 of 5 steps where that is safe
              \E s \in (IF coin <= 2 /\ <<>> \in ok /\ units # <<>> THEN {<<>>} ELSE RandomSubset(1, ok)) : Add(s, u)
 Next == Enum \/ Sim
